@@ -7,13 +7,13 @@ import (
 
 // c12Oracle: one-time secrets are consumed by the login they enable.
 type c12Oracle struct {
-	lastSubmittedTOTP map[string]string // pid -> TOTP code of the immediately preceding submission for it
-	lastAccepted      map[string]bool   // pid -> whether that preceding submission was accepted
-	lastWasEnrol      map[string]bool   // pid -> that submission was the enrolment confirmation
+	lastAcceptedTOTP map[string]string // pid -> digits of the TOTP code accepted last for it
+	lastWasEnrol     map[string]bool   // pid -> that acceptance was the enrolment confirmation
+	rejectedSince    map[string]int    // pid -> refused TOTP submissions since then
 }
 
 func newC12Oracle(w *World) Oracle {
-	return &c12Oracle{lastSubmittedTOTP: map[string]string{}, lastAccepted: map[string]bool{}, lastWasEnrol: map[string]bool{}}
+	return &c12Oracle{lastAcceptedTOTP: map[string]string{}, lastWasEnrol: map[string]bool{}, rejectedSince: map[string]int{}}
 }
 
 func countCSV(s string) int {
@@ -118,7 +118,7 @@ func (c *c12Oracle) Check(w *World, o *Obs) []Violation {
 		code := o.presented("code")
 		if code == nil || code.Value == "" {
 			if st.Kind == "totp_validate" {
-				delete(c.lastSubmittedTOTP, pid)
+				c.rejectedSince[pid]++
 			}
 			break
 		}
@@ -146,10 +146,13 @@ func (c *c12Oracle) Check(w *World, o *Obs) []Violation {
 		}
 		if st.Kind == "totp_validate" && before.TOTPSecretKey != "" {
 			// the code is its digits: white space around them does not make
-			// it another code
+			// it another code. "Twice in a row" is about acceptances: once a
+			// code was accepted it is not accepted again until another code
+			// has been, whatever was submitted and refused in between.
 			digits := strings.TrimSpace(code.Value)
-			prev, had := c.lastSubmittedTOTP[pid]
-			if accepted && w.Cfg.TOTPOneTime && had && prev == digits && c.lastAccepted[pid] {
+			last, had := c.lastAcceptedTOTP[pid]
+			repeat := had && last == digits && w.Cfg.TOTPOneTime
+			if accepted && repeat {
 				how := "verbatim"
 				if digits != code.Value {
 					how = "whitespace"
@@ -157,23 +160,32 @@ func (c *c12Oracle) Check(w *World, o *Obs) []Violation {
 				if c.lastWasEnrol[pid] {
 					how += "_after_enrolment"
 				}
+				if c.rejectedSince[pid] > 0 {
+					how += "_after_refused_attempt"
+				}
 				out = append(out, viol("C12", "totp_repeat", st.Kind, o,
-					fmt.Sprintf("TOTP code %q accepted for %s on two consecutive submissions with replay protection enabled", code.Value, pid), "how", how))
+					fmt.Sprintf("TOTP code %q accepted for %s although it is the code accepted last (replay protection enabled; %d refused submissions in between)", code.Value, pid, c.rejectedSince[pid]), "how", how))
 			}
 			if accepted {
 				w.Stats.Reach["c12_totp_accepted"]++
-			} else if had && prev == digits && w.Cfg.TOTPOneTime && c.lastAccepted[pid] {
-				w.Stats.Reach["c12_totp_repeat_rejected"]++
-				if digits != code.Value {
-					w.Stats.Reach["c12_totp_whitespace_repeat_rejected"]++
+				c.lastAcceptedTOTP[pid] = digits
+				c.lastWasEnrol[pid] = false
+				c.rejectedSince[pid] = 0
+			} else {
+				if repeat {
+					w.Stats.Reach["c12_totp_repeat_rejected"]++
+					if digits != code.Value {
+						w.Stats.Reach["c12_totp_whitespace_repeat_rejected"]++
+					}
+					if c.lastWasEnrol[pid] {
+						w.Stats.Reach["c12_totp_enrol_code_repeat_rejected"]++
+					}
+					if c.rejectedSince[pid] > 0 {
+						w.Stats.Reach["c12_totp_repeat_rejected_after_refused_attempt"]++
+					}
 				}
-				if c.lastWasEnrol[pid] {
-					w.Stats.Reach["c12_totp_enrol_code_repeat_rejected"]++
-				}
+				c.rejectedSince[pid]++
 			}
-			c.lastSubmittedTOTP[pid] = digits
-			c.lastAccepted[pid] = accepted
-			c.lastWasEnrol[pid] = false
 		}
 	case "totp_confirm":
 		// the code that proved the new secret at enrolment is the account's
@@ -185,9 +197,9 @@ func (c *c12Oracle) Check(w *World, o *Obs) []Violation {
 			break
 		}
 		if before.TOTPSecretKey != after.TOTPSecretKey && after.TOTPSecretKey != "" {
-			c.lastSubmittedTOTP[pid] = strings.TrimSpace(code.Value)
-			c.lastAccepted[pid] = true
+			c.lastAcceptedTOTP[pid] = strings.TrimSpace(code.Value)
 			c.lastWasEnrol[pid] = true
+			c.rejectedSince[pid] = 0
 		}
 	}
 	return out
